@@ -191,9 +191,13 @@ pub fn run(ctx: &mut Ctx) {
 
 pub fn replay(case: &Value) -> Result<(), Fail> {
     let text = case["text"].as_str().expect("text");
-    let rname = case["rule"].as_str().expect("rule");
     let e = engines().map_err(|m| Fail::new("c14:grammar-file", m, case.clone()))?;
-    let idx = e.table.iter().position(|(n, _, _)| *n == rname).unwrap_or(0);
+    // raw libFuzzer artifacts carry the selector byte instead of the rule name
+    let idx = match (case["rule"].as_str(), case["rule_selector_byte"].as_u64()) {
+        (Some(rname), _) => e.table.iter().position(|(n, _, _)| *n == rname).unwrap_or(0),
+        (None, Some(b)) if b % 4 == 0 => (b as usize / 4) % e.table.len(),
+        _ => 0,
+    };
     let mut ctx = Ctx::new("C14", Tier::Quick, 0, 0, 1);
     check_text(&mut ctx, &e, text, idx, "replay")
 }
